@@ -1018,17 +1018,17 @@ def d9Region (cs : List (List Str)) : Bool :=
   (keysOf cs).contains (str "as") &&
   ((keysOf cs).contains (str "via") || (keysOf cs).contains (str "from") || (keysOf cs).contains (str "per"))
 
-/-- D51 (buildFramer): a `first` clause together with a `via` clause whose relation ends open -/
-def d51Region (cs : List (List Str)) : Bool :=
+/-- D61 (buildFramer): a `first` clause together with a `via` clause whose relation ends open -/
+def d61Region (cs : List (List Str)) : Bool :=
   (keysOf cs).contains (str "first") &&
   cs.any (fun c => c.head? == some (str "via") && openRel c.tail.tail)
 
-/-- D52 (buildServer): a `per` clause together with an `rx` or `tx` clause -/
-def d52Region (cs : List (List Str)) : Bool :=
+/-- D62 (buildServer): a `per` clause together with an `rx` or `tx` clause -/
+def d62Region (cs : List (List Str)) : Bool :=
   (keysOf cs).contains (str "per") && ((keysOf cs).contains (str "rx") || (keysOf cs).contains (str "tx"))
 
-/-- D53 (buildServer): a `for` clause without field list together with an `in` clause -/
-def d53Region (cs : List (List Str)) : Bool :=
+/-- D63 (buildServer): a `for` clause without field list together with an `in` clause -/
+def d63Region (cs : List (List Str)) : Bool :=
   (keysOf cs).contains (str "in") &&
   cs.any (fun c => c.head? == some (str "for") && !c.tail.contains (str "in"))
 
